@@ -676,9 +676,94 @@ Qed.
 Definition fb_step (s : str) (pos : nat) (r : range) (f : str -> nat -> res range) : res range :=
   '(a, b) <- f s pos ;; Ok (Nat.min a (fst r), Nat.max b (snd r)).
 
-Lemma format_block_unfold s pos :
-  format_block s pos = foldM (fb_step s pos) seam_formatters (pos, pos).
+Lemma seam_hull_of_unfold s pos :
+  seam_hull_of s pos = foldM (fb_step s pos) seam_formatters (pos, pos).
 Proof. reflexivity. Qed.
+
+(** [all_blank_before]: every byte in front of the position is a blank. *)
+Lemma all_blank_before_spec : forall s a,
+  all_blank_before s a = true <->
+  (forall i b, i < a -> nth_error s i = Some b -> is_blank b = true).
+Proof.
+  unfold all_blank_before. induction s as [|c s IH]; intros a.
+  - rewrite firstn_nil. cbn [forallb]. split; [|reflexivity].
+    intros _ i b _ H. destruct i; discriminate H.
+  - destruct a as [|a].
+    + cbn [firstn forallb]. split; [intros _ i b H; lia | reflexivity].
+    + cbn [firstn forallb]. rewrite andb_true_iff, IH. split.
+      * intros [H1 H2] i b Hi Hn. destruct i as [|i]; cbn [nth_error] in Hn.
+        -- inversion Hn; subst b. exact H1.
+        -- apply (H2 i b); [lia | exact Hn].
+      * intros H. split.
+        -- apply (H 0 c); [lia | reflexivity].
+        -- intros i b Hi Hn. apply (H (S i) b); [lia | exact Hn].
+Qed.
+
+Lemma all_blank_before_true s a : all_blank_before s a = true ->
+  forall i b, i < a -> nth_error s i = Some b -> is_blank b = true.
+Proof. apply all_blank_before_spec. Qed.
+
+Lemma all_blank_before_intro s a :
+  (forall i b, i < a -> nth_error s i = Some b -> is_blank b = true) -> all_blank_before s a = true.
+Proof. apply all_blank_before_spec. Qed.
+
+(** A byte that is not a blank in front of the position: the position is not on a blank first line. *)
+Lemma all_blank_before_false s a i b : i < a -> nth_error s i = Some b -> is_blank b = false ->
+  all_blank_before s a = false.
+Proof.
+  intros Hi Hn Hb. destruct (all_blank_before s a) eqn:E; [|reflexivity].
+  rewrite (all_blank_before_true s a E i b Hi Hn) in Hb. discriminate Hb.
+Qed.
+
+Lemma all_blank_before_after_NL s a i : i < a -> nth_error s i = Some NL -> all_blank_before s a = false.
+Proof. intros Hi Hn. apply (all_blank_before_false s a i NL Hi Hn NL_not_blank). Qed.
+
+Lemma all_blank_before_0 s : all_blank_before s 0 = true.
+Proof. reflexivity. Qed.
+
+Lemma all_blank_before_mono s a a' : a' <= a -> all_blank_before s a = true -> all_blank_before s a' = true.
+Proof.
+  intros Hle H. apply all_blank_before_intro. intros i b Hi Hn.
+  apply (all_blank_before_true s a H i b); [lia | exact Hn].
+Qed.
+
+(** [format_block] from the hull of the four seam formatters. *)
+Lemma format_block_hull s pos r : seam_hull_of s pos = Ok r ->
+  format_block s pos = Ok (if (pos <? snd r) && all_blank_before s (fst r) then (0, snd r) else r).
+Proof.
+  intros H. unfold format_block. rewrite H. cbn [bind].
+  destruct ((pos <? snd r) && all_blank_before s (fst r)); reflexivity.
+Qed.
+
+(** The hull is kept when it does not reach behind the seam ... *)
+Lemma format_block_hull_no_lb s pos a : seam_hull_of s pos = Ok (a, pos) ->
+  format_block s pos = Ok (a, pos).
+Proof.
+  intros H. rewrite (format_block_hull s pos _ H). cbn [fst snd]. rewrite Nat.ltb_irrefl. reflexivity.
+Qed.
+
+(** ... and when something else than blanks stands in front of it. *)
+Lemma format_block_hull_not_first s pos a b : seam_hull_of s pos = Ok (a, b) ->
+  all_blank_before s a = false -> format_block s pos = Ok (a, b).
+Proof.
+  intros H E. rewrite (format_block_hull s pos _ H). cbn [fst snd]. rewrite E, andb_false_r. reflexivity.
+Qed.
+
+Lemma format_block_hull_first s pos a b : seam_hull_of s pos = Ok (a, b) -> pos < b ->
+  all_blank_before s a = true -> format_block s pos = Ok (0, b).
+Proof.
+  intros H L E. rewrite (format_block_hull s pos _ H). cbn [fst snd]. rewrite E.
+  destruct (Nat.ltb_spec pos b) as [_|K]; [reflexivity | lia].
+Qed.
+
+Lemma format_block_hull_inv s pos r : format_block s pos = Ok r ->
+  exists h, seam_hull_of s pos = Ok h /\
+            r = (if (pos <? snd h) && all_blank_before s (fst h) then (0, snd h) else h).
+Proof.
+  intros H. unfold format_block in H. destruct (seam_hull_of s pos) as [h|] eqn:E; [|discriminate H].
+  exists h. split; [reflexivity|]. cbn [bind] in H.
+  destruct ((pos <? snd h) && all_blank_before s (fst h)); inversion H; reflexivity.
+Qed.
 
 Lemma fb_fold_total s pos : forall fs,
   (forall f, In f fs -> exists r, f s pos = Ok r) ->
@@ -703,10 +788,42 @@ Proof.
     apply good_merge; [|exact G]. apply (Hall f a b); [left; reflexivity | exact E].
 Qed.
 
+Theorem seam_hull_of_total : forall s pos, is_boundary s pos = true -> exists r, seam_hull_of s pos = Ok r.
+Proof.
+  intros s pos Hb. rewrite seam_hull_of_unfold. apply fb_fold_total.
+  intros f Hin. apply seam_formatter_total; assumption.
+Qed.
+
+Theorem seam_hull_of_spec : forall s pos a b,
+  wf_utf8 s = true -> is_boundary s pos = true -> pos <= length s -> seam_hull_of s pos = Ok (a, b) ->
+  a <= pos /\ pos <= b /\ b <= length s /\ ranges_only_ws s [(a, b)] /\
+  is_boundary s a = true /\ is_boundary s b = true.
+Proof.
+  intros s pos a b Hs Hb Hl H. rewrite seam_hull_of_unfold in H.
+  apply (fb_fold_good s pos seam_formatters) with (r0 := (pos, pos)) (r := (a, b)).
+  - intros f a' b' Hin E. apply (seam_formatter_good f s pos a' b' Hin Hs Hb Hl E).
+  - apply good_empty; assumption.
+  - exact H.
+Qed.
+
 Theorem format_block_total : forall s pos, is_boundary s pos = true -> exists r, format_block s pos = Ok r.
 Proof.
-  intros s pos Hb. rewrite format_block_unfold. apply fb_fold_total.
-  intros f Hin. apply seam_formatter_total; assumption.
+  intros s pos Hb. destruct (seam_hull_of_total s pos Hb) as [r E].
+  eexists. apply (format_block_hull s pos r E).
+Qed.
+
+(** The range of [format_block] against the hull: the same end, the same start or 0, and in the
+    latter case only blanks in front of the hull. *)
+Lemma format_block_vs_hull s pos a b : format_block s pos = Ok (a, b) ->
+  exists a0, seam_hull_of s pos = Ok (a0, b) /\
+    (a = a0 \/ (a = 0 /\ pos < b /\ all_blank_before s a0 = true)).
+Proof.
+  intros H. destruct (format_block_hull_inv s pos _ H) as ([a0 b0] & E & R). cbn [fst snd] in R.
+  destruct (Nat.ltb_spec pos b0) as [L|L]; cbn [andb] in R.
+  - destruct (all_blank_before s a0) eqn:AB; inversion R; subst a b; exists a0.
+    + split; [exact E|]. right. auto.
+    + split; [exact E|]. left. reflexivity.
+  - inversion R; subst a b. exists a0. split; [exact E|]. left. reflexivity.
 Qed.
 
 Theorem format_block_spec : forall s pos a b,
@@ -714,11 +831,15 @@ Theorem format_block_spec : forall s pos a b,
   a <= pos /\ pos <= b /\ b <= length s /\ ranges_only_ws s [(a, b)] /\
   is_boundary s a = true /\ is_boundary s b = true.
 Proof.
-  intros s pos a b Hs Hb Hl H. rewrite format_block_unfold in H.
-  apply (fb_fold_good s pos seam_formatters) with (r0 := (pos, pos)) (r := (a, b)).
-  - intros f a' b' Hin E. apply (seam_formatter_good f s pos a' b' Hin Hs Hb Hl E).
-  - apply good_empty; assumption.
-  - exact H.
+  intros s pos a b Hs Hb Hl H.
+  destruct (format_block_vs_hull s pos a b H) as (a0 & E & C).
+  destruct (seam_hull_of_spec s pos a0 b Hs Hb Hl E) as (G1 & G2 & G3 & G4 & G5 & G6).
+  destruct C as [-> | (-> & L & AB)]; [repeat split; assumption|].
+  split; [lia|]. split; [exact G2|]. split; [exact G3|]. split; [|split; [reflexivity | exact G6]].
+  apply ranges_only_ws_single. intros i c Hi1 Hi2 Hn.
+  destruct (Nat.lt_ge_cases i a0) as [K|K].
+  - apply blank_is_ws. apply (all_blank_before_true s a0 AB i c K Hn).
+  - apply (ranges_only_ws_single_inv s a0 b G4 i c K Hi2 Hn).
 Qed.
 
 (* ------------------------------------------------------------------------- *)
@@ -738,9 +859,9 @@ Proof.
   intros s a b. unfold block_indent_remover.
   assert (exists ofs, match find_prev_lb s a true with
                       | Some pos => x <- csub a pos ;; csub x 1
-                      | None => Ok 0
+                      | None => Ok (if all_blank_before s a then a else 0)
                       end = Ok ofs) as [ofs ->].
-  { destruct (find_prev_lb s a true) as [p|] eqn:F; [|exists 0; reflexivity].
+  { destruct (find_prev_lb s a true) as [p|] eqn:F; [|eexists; reflexivity].
     apply find_prev_lb_some in F. destruct F as (F1 & _).
     rewrite (csub_le a p) by lia. cbn [bind]. rewrite csub_le by lia. eexists; reflexivity. }
   cbn [bind]. cbv zeta.
@@ -854,6 +975,10 @@ Print Assumptions find_prev_lb_none.
 Print Assumptions after_nl_boundary.
 Print Assumptions seam_formatter_total.
 Print Assumptions seam_formatter_spec.
+Print Assumptions seam_hull_of_total.
+Print Assumptions seam_hull_of_spec.
+Print Assumptions format_block_hull.
+Print Assumptions all_blank_before_spec.
 Print Assumptions format_block_total.
 Print Assumptions format_block_spec.
 Print Assumptions block_indent_total.
